@@ -362,9 +362,13 @@ class FuncFacts:
                     break
         return best
 
-    @staticmethod
-    def _size(n):
-        return (getattr(n, "end_lineno", 0) or 0) - (getattr(n, "lineno", 0) or 0)
+    def _size(self, n):
+        # number of AST nodes (line spans are meaningless for expanded helper code, whose statements all carry the call site's line)
+        c = self.__dict__.setdefault("_size_cache", {})
+        k = id(n)
+        if k not in c:
+            c[k] = sum(1 for _ in ast.walk(n))
+        return c[k]
 
     # -- walk ---------------------------------------------------------------
     def _record(self, stmt, env, facts, loops, tries, handlers):
